@@ -65,3 +65,11 @@ Theorem C01_generated_advance_progress_is_the_model : forall st s i, (1 <= depth
   advance_progress (view st s i) (nexts (s i)) (cur (s i)) None (until st) (mkI 1 1 (repeat 0 (depth st i))) = new_progress st s i.
 Proof. exact tie_advance_progress. Qed.
 Print Assumptions C01_generated_advance_progress_is_the_model.
+
+(* tie to the source: the conditions wait_for_dependencies awaits (regenerated from mosaik/scheduler.py together with
+   Progress._triggered_time from mosaik/progress.py, Gen/SchedulerFns.v) are all fulfilled exactly when the model's guard
+   deps_ok holds; its first group - has_passed(next_step, shift=delay) for every entry of input_delays - is the input guard *)
+Theorem C01_generated_guard_is_the_model : forall st s i t,
+  wait_for_dependencies_ready (pview s (indel st i)) (pview s (succ_wait st i)) (pview s (succ_lazy st i)) (lazy st) t = deps_ok st s i t.
+Proof. exact tie_wait_for_dependencies. Qed.
+Print Assumptions C01_generated_guard_is_the_model.
